@@ -156,6 +156,8 @@ def run (j : Json) : Except String Json := do
     let starts := kws.map (fun kw => resToJson (construct O cls kw))
     let insts ← (← (← j.getObjVal? "insts").getArr?).toList.mapM instOfJson
     let names := fields.map (·.1)
+    -- the order in which the class lists its fields (`get_all_fields_by_name()`, read off the real class)
+    let fieldOrder ← strList j "fieldOrder"
     let eq := insts.map fun a => Json.arr (insts.map fun b => Json.bool (instEq defaults a b)).toArray
     let fw := insts.map fun a => Json.arr (insts.map fun b =>
       Json.bool (a.cls == b.cls && fieldwise defaults names a b)).toArray
@@ -185,6 +187,7 @@ def run (j : Json) : Except String Json := do
          ("copy", copyJson R defaults x (copyI x)),
          ("deepcopy", copyJson R defaults x d),
          ("pickle", copyJson R defaults x p),
+         ("pickleOrder", Json.arr ((pickleOrdI fieldOrder sPickle x).attrs.map fun kv => Json.str kv.1).toArray),
          ("runFresh", Json.arr (stepsJson c fields O x ops).toArray),
          ("runDeep", Json.arr (stepsJson c fields O d ops).toArray),
          ("runPickle", Json.arr (stepsJson c fields O p ops).toArray)]
